@@ -74,7 +74,11 @@ func Main() int {
 			}
 		}()
 		p := Load(*repo, "", false)
+		tLoad := time.Since(start)
 		p.BuildCallGraph()
+		if os.Getenv("VG_TIMING") != "" {
+			fmt.Fprintf(os.Stderr, "timing: load=%.1fs callgraph=%.1fs\n", tLoad.Seconds(), (time.Since(start) - tLoad).Seconds())
+		}
 		extra := map[string]any{}
 		if *tier == "thorough" {
 			p.BuildVTA()
